@@ -114,6 +114,8 @@ pub mod pst;
 pub mod tpe;
 pub mod transitive_closure;
 pub mod validator;
+#[cfg(feature = "verif-trace")]
+pub mod verif_trace;
 
 #[cfg(any(test, feature = "test-util"))]
 #[cfg_attr(docsrs, doc(cfg(feature = "test-util")))]
